@@ -118,7 +118,8 @@ Section FromMs.
     end.
 
   (* lineage_movements and split_join_params of one same-time group *)
-  Record gstate := mkG { g_lm : list (list num); g_params : list (nat * nat * num) }.
+  Record gstate := mkG { g_lm : list (list num); g_params : list (nat * nat * num);
+                         g_first : nat (* populations with this index or above are created by -es in this group *) }.
 
   Definition rowupd (lm : list (list num)) (f : list num -> list num) := map f lm.
 
@@ -185,7 +186,7 @@ Section FromMs.
                     let x := nth pi row n0 in
                     upd pi (fun _ => n0) (upd pj (fun y => nadd y x) row)) in
         let params := match retarget (rev (g_params gs)) pi pj with
-                      | Some r => rev r
+                      | Some r => if Nat.ltb pi (g_first gs) then rev r ++ [(pi, pj, n1)] else rev r
                       | None => g_params gs ++ [(pi, pj, n1)]
                       end in
         let s1 := matrix_at (with_demes s ds) time in
@@ -193,7 +194,7 @@ Section FromMs.
                                   if (Nat.eqb c pi && negb (Nat.eqb r pi)) || (Nat.eqb r pi && negb (Nat.eqb c pi))
                                   then n0 else y) row)) s1 in
         Ok (mkB (b_n s2) (b_mms s2) (b_ends s2) (pi :: b_joined s2) (b_demes s2) (b_pulses s2),
-            mkG lm params)
+            mkG lm params (g_first gs))
     | Evs _ i p =>
         pp <- pid s i ;;
         let newp := b_n s in
@@ -203,7 +204,7 @@ Section FromMs.
                     upd newp (fun _ => nmul (nsub n1 p) x) (upd pp (fun y => nmul y p) row)) in
         let mms := map (fun m => map (fun row => row ++ [n0]) m ++ [repeat n0 (S newp)]) (b_mms s) in
         Ok (mkB (S (b_n s)) mms (b_ends s) (b_joined s) (b_demes s ++ [nd]) (b_pulses s),
-            mkG lm (g_params gs ++ [(pp, newp, nsub n1 p)]))
+            mkG lm (g_params gs ++ [(pp, newp, nsub n1 p)]) (g_first gs))
     end.
 
   (* after a group: ancestry or pulses from the collected parameters *)
@@ -247,7 +248,7 @@ Section FromMs.
     let n := b_n s + List.length (filter is_split evs) in
     let lm := mapi 0 (fun i (_ : unit) => mapi 0 (fun j (_ : unit) =>
                         if Nat.eqb i j && Nat.ltb i (b_n s) then n1 else n0) (repeat tt n)) (repeat tt n) in
-    r <- foldM (step N0 time) evs (s, mkG lm []) ;;
+    r <- foldM (step N0 time) evs (s, mkG lm [] (b_n s)) ;;
     finish_group time (fst r) (snd r).
 
   (* option-record validators (attrs) applied when the command line is parsed *)
@@ -331,6 +332,23 @@ Section FromMs.
   Definition last_end (d : bdeme) : num :=
     match rev (bd_epochs d) with e :: _ => be_end e | [] => n0 end.
 
+  Definition transient (d : bdeme) : bool :=
+    negb (neqb (bd_start d) n0) && negb (nisinf (bd_start d)) && neqb (bd_start d) (last_end d).
+  Definition referenced (pulses : list bpulse) (migs : list bmig) (current : list bdeme) (nm : string) : bool :=
+    existsb (fun p => String.eqb (bp_src p) nm || String.eqb (bp_dst p) nm) pulses
+    || existsb (fun m => String.eqb (bm_src m) nm || String.eqb (bm_dst m) nm) migs
+    || existsb (fun d => match bd_anc d with Some l => mem nm l | None => false end) current.
+  Fixpoint remove_transient (pulses : list bpulse) (migs : list bmig) (done_rev todo : list bdeme)
+    : res (list bdeme) :=
+    match todo with
+    | [] => Ok (rev done_rev)
+    | d :: rest =>
+        if transient d then
+          raise_if (referenced pulses migs (rev done_rev ++ d :: rest) (bd_name d)) AssertErr ;;;
+          remove_transient pulses migs done_rev rest
+        else remove_transient pulses migs (d :: done_rev) rest
+    end.
+
   (* the document build_graph hands to Builder.resolve *)
   Definition build_doc (c : mscmd) (N0 : num) : res jv :=
     raise_if (Nat.eqb (c_npop c) 0) ValueErr ;;;
@@ -364,14 +382,10 @@ Section FromMs.
     let migs := migs_from_matrices names (b_mms s) (b_ends s) in
     migs' <- mapM (fun m => r <- pdiv (bm_rate m) (nmul n4 N0) ;;
                             Ok (mkBM (bm_src m) (bm_dst m) (bm_start m) (bm_end m) r)) migs ;;
-    (* _remove_transient_demes *)
-    let transient d := negb (neqb (bd_start d) n0) && negb (nisinf (bd_start d)) && neqb (bd_start d) (last_end d) in
-    let referenced nm :=
-        existsb (fun p => String.eqb (bp_src p) nm || String.eqb (bp_dst p) nm) (b_pulses s)
-        || existsb (fun m => String.eqb (bm_src m) nm || String.eqb (bm_dst m) nm) migs'
-        || existsb (fun d => match bd_anc d with Some l => mem nm l | None => false end) ds in
-    raise_if (existsb (fun d => transient d && referenced (bd_name d)) ds) AssertErr ;;;
-    let kept := sort_bdemes (filter (fun d => negb (transient d)) ds) in
+    (* _remove_transient_demes: demes are examined in order; a transient deme must not be referenced by a
+       pulse, a migration, or the ancestors of any deme still in the list (those removed before it are gone) *)
+    kept0 <- remove_transient (b_pulses s) migs' [] ds ;;
+    let kept := sort_bdemes kept0 in
     Ok (JDict ([("time_units", JStr "generations");
                 ("demes", JList (map jv_of_bdeme kept));
                 ("migrations", JList (map (fun m => JDict [("source", JStr (bm_src m)); ("dest", JStr (bm_dst m));
